@@ -339,6 +339,35 @@ pub fn check_sup(c: &SupCase) -> (Verdict, SupStats) {
         let up = upcoming(&r);
         let out = r.step();
         if matches!(out, Outcome::Hang | Outcome::Undefined) {
+            // outside the instruction set the model has nothing to say, but the observational monitor
+            // holds for every clock edge whatever is executed: keep watching for a while
+            for _ in 0..600 {
+                if m.state() != State::Running {
+                    break;
+                }
+                if let Err(e) = edge(&mut m, c.stack, limit, &mut stats) {
+                    fail!(e);
+                }
+            }
+            if m.state() != State::Running {
+                if let Err(e) = absorption(&m, &c.stims, &mut stats) {
+                    fail!(e);
+                }
+                if m.state() == State::Stopped {
+                    let mut t = m.clone();
+                    t.trigger_key_continue();
+                    let mut st2 = SupStats { instructions: 0, edges: 0, end: "", halted_by_supervision: false, band_edge_touched: false, continued: 0, absorbed_stims: 0 };
+                    for _ in 0..40 {
+                        if t.state() != State::Running {
+                            break;
+                        }
+                        if let Err(e) = edge(&mut t, c.stack, limit, &mut st2) {
+                            fail!(e);
+                        }
+                    }
+                    stats.edges += st2.edges;
+                }
+            }
             stats.end = "undefined-byte";
             break;
         }
@@ -529,6 +558,18 @@ fn families() -> Vec<SupCase> {
                     continue;
                 }
                 v.push(base(1, limit, vec![], Fill::Nops, vec![(a as u8, byte)]));
+            }
+        }
+    }
+    // a halting byte (0x01 / 0x00) as SECOND opcode byte of a two-byte instruction at limit-1, limit, limit+1
+    for limit in 1..=0xEEu8 {
+        for delta in [-1i32, 0, 1] {
+            for byte in [0x01u8, 0x00] {
+                let a = limit as i32 + delta;
+                if !(1..=0xEF).contains(&a) {
+                    continue;
+                }
+                v.push(base(2, limit, vec![], Fill::Nops, vec![((a - 1) as u8, 0xF0), (a as u8, byte)]));
             }
         }
     }
